@@ -21,6 +21,10 @@ pub enum Action {
     /// One flipped bit in the (uncompressed) JSON text of a hunk, head or tail, chosen so that
     /// the file still decodes: the damage no checksum catches.
     JsonFlip(u64),
+    /// One field of the JSON of a hunk, head or tail set to a value at or beyond the edge of
+    /// its type (times, nanoseconds, block offsets and lengths, modes, counts); the file still
+    /// decodes as JSON.
+    JsonField(u64),
 }
 
 impl Action {
@@ -32,6 +36,7 @@ impl Action {
             Action::Garbage => "garbage".into(),
             Action::BitFlip(n) => format!("bitflip{n}"),
             Action::JsonFlip(n) => format!("jsonflip{n}"),
+            Action::JsonField(n) => format!("jsonfield{n}"),
         }
     }
     pub fn parse(name: &str) -> Option<Action> {
@@ -45,6 +50,8 @@ impl Action {
                     Action::BitFlip(n.parse().ok()?)
                 } else if let Some(n) = name.strip_prefix("jsonflip") {
                     Action::JsonFlip(n.parse().ok()?)
+                } else if let Some(n) = name.strip_prefix("jsonfield") {
+                    Action::JsonField(n.parse().ok()?)
                 } else {
                     return None;
                 }
@@ -59,6 +66,7 @@ impl Action {
             Action::Garbage => "garbage",
             Action::BitFlip(_) => "bitflip",
             Action::JsonFlip(_) => "jsonflip",
+            Action::JsonField(_) => "jsonfield",
         }
     }
 }
@@ -119,6 +127,43 @@ pub fn apply(root: &Path, d: &Damage, seed: u64) {
                     }
                 }
             }
+        }
+        Action::JsonField(k) => {
+            use serde_json::json;
+            let raw = std::fs::read(&p).unwrap();
+            let is_hunk = path_class(&d.relpath) == "hunk";
+            let plain = if is_hunk { fmt06::snappy_decompress(&raw).unwrap_or_default() } else { raw.clone() };
+            let Ok(mut v) = serde_json::from_slice::<serde_json::Value>(&plain) else { return };
+            if is_hunk {
+                let Some(entries) = v.as_array_mut() else { return };
+                if entries.is_empty() {
+                    return;
+                }
+                // the first entry with addresses for the address fields, else the first entry
+                let with_addrs = entries.iter().position(|e| e.get("addrs").and_then(|a| a.as_array()).map(|a| !a.is_empty()).unwrap_or(false));
+                let (idx, edit): (usize, Box<dyn Fn(&mut serde_json::Value)>) = match k % 10 {
+                    0 => (0, Box::new(|e| e["mtime"] = json!(160000030899551i64))),
+                    1 => (0, Box::new(|e| e["mtime"] = json!(-400000000000000i64))),
+                    2 => (0, Box::new(|e| e["mtime_nanos"] = json!(4_000_000_000u64))),
+                    3 => (0, Box::new(|e| e["mtime_nanos"] = json!(1_000_000_000u64))),
+                    4 => (0, Box::new(|e| e["mtime"] = json!(i64::MAX))),
+                    5 => (0, Box::new(|e| e["unix_mode"] = json!(u32::MAX))),
+                    6 => (with_addrs.unwrap_or(0), Box::new(|e| if e.get("addrs").is_some() { e["addrs"][0]["start"] = json!(u64::MAX) })),
+                    7 => (with_addrs.unwrap_or(0), Box::new(|e| if e.get("addrs").is_some() { e["addrs"][0]["len"] = json!(u64::MAX) })),
+                    8 => (with_addrs.unwrap_or(0), Box::new(|e| if e.get("addrs").is_some() { e["addrs"][0]["start"] = json!(u64::MAX - 3); e["addrs"][0]["len"] = json!(10) })),
+                    _ => (0, Box::new(|e| e["mtime"] = json!(i64::MIN))),
+                };
+                edit(&mut entries[idx]);
+            } else if v.is_object() {
+                match k % 4 {
+                    0 => v["start_time"] = json!(i64::MAX),
+                    1 => v["start_time"] = json!(i64::MIN),
+                    2 => v["end_time"] = json!(i64::MAX),
+                    _ => v["index_hunk_count"] = json!(u64::MAX),
+                }
+            }
+            let m = serde_json::to_vec(&v).unwrap();
+            std::fs::write(&p, if is_hunk { fmt06::snappy_compress(&m) } else { m }).unwrap();
         }
         Action::BitFlip(i) => {
             let mut b = std::fs::read(&p).unwrap();
@@ -373,6 +418,9 @@ pub fn all_damages(root: &Path, bitflips_for_all: bool, n_flips: u64) -> Vec<Dam
         if bitflips_for_all && matches!(pc, "hunk" | "BANDHEAD" | "BANDTAIL") {
             for i in 0..(n_flips * 4) {
                 v.push(Damage { relpath: f.clone(), action: Action::JsonFlip(i) });
+            }
+            for k in 0..(if pc == "hunk" { 10 } else { 4 }) {
+                v.push(Damage { relpath: f.clone(), action: Action::JsonField(k) });
             }
         }
     }
